@@ -304,6 +304,10 @@ pub struct Ctx {
     /// for checks that touch wall-clock time (running trackers): a violation is re-run this
     /// many more times and reported only if every run fails; otherwise it is "undecided"
     pub confirm_runs: u32,
+    /// violation kinds whose single observation is conclusive although the case may not fail
+    /// again (free-running threads: an observed deadlock or non-linearizable history is real
+    /// whether or not the same burst shows it a second time)
+    pub decisive_kinds: Vec<&'static str>,
 }
 
 impl Ctx {
@@ -330,6 +334,7 @@ impl Ctx {
             inconclusive: Vec::new(),
             strict: false,
             confirm_runs: 0,
+            decisive_kinds: Vec::new(),
         }
     }
 
@@ -577,7 +582,7 @@ impl Ctx {
                             // message of the last failing execution (kept for the case that the
                             // shrunk case does not fail again)
                             let v = last_violation.lock().unwrap().clone();
-                            Some((v.map(|v| format!("[{}] {}", v.kind, v.message)).unwrap_or_default(), value))
+                            Some((v.unwrap_or_else(|| Violation::new("unknown", "")), value))
                         }
                         Err(TestError::Abort(reason)) => {
                             return (shared, None, Some(format!("aborted: {reason}")))
@@ -593,8 +598,7 @@ impl Ctx {
             name: sub.to_string(),
             ..Default::default()
         };
-        let mut failures: Vec<T> = Vec::new();
-        let mut failure_msgs: Vec<String> = Vec::new();
+        let mut failures: Vec<(T, Violation)> = Vec::new();
         for h in handles {
             match h.join() {
                 Ok((shared, failure, abort)) => {
@@ -633,8 +637,7 @@ impl Ctx {
                         self.inconclusive.push(format!("{sub}: {i}"));
                     }
                     if let Some((reason, value)) = failure {
-                        failures.push(value);
-                        failure_msgs.push(reason);
+                        failures.push((value, reason));
                     }
                     if let Some(a) = abort {
                         self.inconclusive.push(format!("{sub}: {a}"));
@@ -653,8 +656,8 @@ impl Ctx {
         }
         // choose the smallest failing case and re-run it once for an exact message
         if !failures.is_empty() {
-            failures.sort_by_key(|c| serde_json::to_vec(c).map(|v| v.len()).unwrap_or(usize::MAX));
-            let case = failures.remove(0);
+            failures.sort_by_key(|(c, _)| serde_json::to_vec(c).map(|v| v.len()).unwrap_or(usize::MAX));
+            let (case, seen) = failures.remove(0);
             let strict_known = self.known.clone();
             // Re-run the minimal case. Deterministic checks: once. Checks against running
             // trackers (confirm_runs > 0): up to six times, because whether a defect shows can
@@ -685,12 +688,23 @@ impl Ctx {
                     });
                 }
                 Err(_) => {}
+                Ok(_) if self.decisive_kinds.contains(&seen.kind.as_str())
+                    && (strict || strict_known.matching(property, sub, &seen.kind).is_none()) =>
+                {
+                    // the observation made during the search stands on its own
+                    rep.failure = Some(Failure {
+                        kind: seen.kind,
+                        message: format!("{} (seen once during the search; the same case passed when run again - the outcome depends on the thread schedule)", seen.message),
+                        case: serde_json::to_value(&case).unwrap_or(Value::Null),
+                    });
+                }
                 Ok(_) => {
                     // did not reproduce on re-run: not deterministic => inconclusive
                     let js = serde_json::to_string(&case).unwrap_or_default();
+                    let m = format!("[{}] {}", seen.kind, seen.message);
                     self.inconclusive.push(format!(
                         "{sub}: shrunk failing case did not fail again when re-run; last failure seen: {}; case: {}",
-                        failure_msgs.first().map(|s| &s[..s.len().min(1500)]).unwrap_or(""),
+                        &m[..m.len().min(1500)],
                         &js[..js.len().min(3000)]
                     ));
                 }
